@@ -258,6 +258,16 @@ class C12(Check):
         from .c15 import features_of, map_value_ends_in_record, record_reuse_substring
         feats = set()
         features_of(node, table, feats)
+        # F-JSON-RECORD-REUSE-SUBSTRING in every schema form: once a named field type is a by-name reference (which the
+        # piecewise form makes of any separately parsed type) the grammar builder's `name in field["type"]` test fires for a
+        # record whose name is a substring of that type's name, whether or not the record itself is used twice
+        for name, t in table.items():
+            if t["k"] == "record":
+                for f in t["fields"]:
+                    ft = f["type"]
+                    if ft["k"] == "ref" or ft["k"] in M.NAMED:
+                        if name in ft["name"]:
+                            return False
         return not (feats & {"recursive", "empty-record"}) and not map_value_ends_in_record(node, table) and not record_reuse_substring(node, table, include_inline=True)
 
     def _operations(self, case, node, table, json_ok, labels):
